@@ -41,6 +41,14 @@ def validate(seed=0):
         if a >= 0 and 0 <= m <= k:  # common start / prefix
             assert J(ext(s, a, k)) == J(ext(s, a, m)) + J(ext(s, a + m, k - m)), (s, a, m, k)
         n += 6
+    # filter_origin: every element of a filter-shaped spec function F(l) = sum([x] if P(x) else []) is an element of l
+    for _ in range(2000):
+        l = [r.randint(0, 5) for _ in range(r.randint(0, 7))]
+        pset = set(r.sample(range(6), r.randint(0, 6)))
+        f = [x for x in l if x in pset]
+        for k in range(len(f)):
+            assert any(f[k] is l[c] or f[k] == l[c] for c in range(len(l)))
+        n += 1
     # isspace / isdigit of a concatenation, exhaustively over short strings
     strs = [""] + ["".join(p) for k in (1, 2) for p in itertools.product(ALPH, repeat=k)]
     for a in strs:
